@@ -943,10 +943,23 @@ def run_os(case, seed):
 # --------------------------------------------------------------------------- generators
 
 
-def fixed_cases():
+def fixed_cases(thorough=False):
     """Small configurations explored exhaustively (every transition of the reachable state graph)."""
     T = lambda o, f=False, c=False: dict(obj=o, fails=f, cbFails=c)  # noqa: E731
-    return [
+    extra = [
+        # thorough tier: 3 workers, 4 tensors (oversized + shared object), with and without a failure;
+        # 3 shard drivers on 3 shards
+        ("par-3w-4t-oversized-shared-failing",
+         dict(mode="parallel", workers=3, cap=4, shard=None, objs=[dict(size=3), dict(size=6), dict(size=2)],
+              tensors=[T(0), T(1, True), T(0), T(2)])),
+        ("par-3w-4t-oversized-shared",
+         dict(mode="parallel", workers=3, cap=4, shard=None, objs=[dict(size=3), dict(size=6), dict(size=2)],
+              tensors=[T(0), T(1), T(0), T(2)])),
+        ("shards-3w-3shards",
+         dict(mode="shards", workers=3, cap=2, shard=3, objs=[dict(size=3), dict(size=1), dict(size=2)],
+              tensors=[T(0), T(1), T(2), T(1)])),
+    ]
+    return (extra if thorough else []) + [
         # 2 workers, 3 tensors: one oversized (6 > 4), one object shared by tensors 0 and 2, tensor 1 fails
         ("par-2w-3t-oversized-shared-failing",
          dict(mode="parallel", workers=2, cap=4, shard=None, objs=[dict(size=3), dict(size=6)],
@@ -1146,8 +1159,8 @@ def run(ctx: Ctx) -> None:
         replay(ctx, obj)
     items = []
     # 1. exhaustive: every transition of the reachable state graph of the small configurations
-    fixed = fixed_cases() if not ctx.quick else fixed_cases()
-    max_states = ctx.pick(60000, 400000)
+    fixed = fixed_cases(thorough=not ctx.quick)
+    max_states = ctx.pick(60000, 2000000)
     covers = lean_batch([{"m": "writer.cover", "cfg": model_cfg(c), "maxStates": max_states} for _, c in fixed])
     for (name, case), cov in zip(fixed, covers):
         if "err" in cov:
@@ -1165,7 +1178,7 @@ def run(ctx: Ctx) -> None:
         for ch in _chunks(cov["scheds"], max(20, len(cov["scheds"]) // 48 + 1)):
             items.append(dict(kind="sched", name=name, case=case, cfg=cfg, scheds=ch))
     # 2. random walks on random configurations
-    nwalk = ctx.pick(48, 480)
+    nwalk = ctx.pick(96, 480)
     for k in range(nwalk):
         items.append(dict(kind="walk", seed=ctx.rng.randrange(1 << 30), count=ctx.pick(6, 12), walks=ctx.pick(4, 8),
                           big=not ctx.quick))
